@@ -16,6 +16,10 @@ def sandwich_line(line, a, b):
     return line.startswith(("q sbon ", "q sbat ", "symq "))
 ADDRS = [None, 0, 1, 2, 3, 4, 5, 6, 8, 10, 12]
 BIG = [2**64 - 8, 2**63]
+# beyond what a file can store: accepted by the setters of the unmodified
+# code; a setter that rejects them must leave the structure (and every index)
+# as it was
+HUGE = [2**64, 2**64 + 5, 2**64 + 2**32, 2**70]
 
 
 class World:
@@ -84,24 +88,25 @@ class World:
     # ---- abstract edits; each returns the driver line(s) it corresponds to
     def apply(self, op):
         k = op[0]
+        self.rejected = None
         if k == "blkoff":
             b = self.blks[op[1]]
-            b.offset = op[2]
+            self.assign(b, "offset", op[2])
             self.emit("blkset %d %d %d" % (op[1], b.offset, b.size))
         elif k == "blksize":
             b = self.blks[op[1]]
-            b.size = op[2]
+            self.assign(b, "size", op[2])
             self.emit("blkset %d %d %d" % (op[1], b.offset, b.size))
         elif k == "biaddr":
             x = self.bis[op[1]]
-            x.address = op[2]
-            self.emit("biset %d %s %d" % (op[1], "-" if op[2] is None
-                                          else op[2], x.size))
+            a = self.assign(x, "address", op[2])
+            self.emit("biset %d %s %d" % (op[1], "-" if a is None
+                                          else a, x.size))
         elif k == "bisize":
             x = self.bis[op[1]]
-            x.size = op[2]
+            z = self.assign(x, "size", op[2])
             self.emit("biset %d %s %d" % (
-                op[1], "-" if x.address is None else x.address, op[2]))
+                op[1], "-" if x.address is None else x.address, z))
         elif k == "blk-parent":       # b.byte_interval = x / None
             b = self.blks[op[1]]
             b.byte_interval = None if op[2] is None else self.bis[op[2]]
@@ -174,6 +179,8 @@ class World:
             if op[2] in x.symbolic_expressions:
                 del x.symbolic_expressions[op[2]]
                 self.emit("symdel %d %d" % (op[1], op[2]))
+        elif k == "reload" and not self.loadable():
+            pass        # values a file cannot store: no save + load here
         elif k == "reload":
             # save + load: everything attached to the IR is replaced by the
             # loaded objects (same UUIDs, fresh indexes); detached nodes stay
@@ -209,6 +216,19 @@ class World:
         else:
             raise ValueError(k)
 
+    def assign(self, obj, attr, value):
+        """obj.attr = value. The value the model is told is the one asked for;
+        if the setter REJECTS the assignment (an exception, which no property
+        here forbids for values a file cannot store), the model is told what
+        the attribute holds now, and the lookups that follow are compared with
+        a scan of the structure as it is."""
+        try:
+            setattr(obj, attr, value)
+        except (ValueError, OverflowError, TypeError) as e:
+            self.rejected = type(e).__name__
+            return getattr(obj, attr)
+        return value
+
     def gen_edit(self):
         rng = self.rng
         if rng.random() < 0.02 and self.loadable():
@@ -224,14 +244,19 @@ class World:
         if r < 0.12:
             return ("bi-toggle", rng.randrange(N_BI), rng.choice(ADDRS))
         if r < 0.24:
-            return ("blkoff", rng.randrange(N_BLK), rng.randrange(0, 8))
+            return ("blkoff", rng.randrange(N_BLK), rng.randrange(0, 8)
+                    if rng.random() < 0.96 else rng.choice(HUGE))
         if r < 0.38:
-            return ("blksize", rng.randrange(N_BLK), rng.randrange(0, 6))
+            return ("blksize", rng.randrange(N_BLK), rng.randrange(0, 6)
+                    if rng.random() < 0.96 else rng.choice(HUGE))
         if r < 0.5:
-            a = rng.choice(ADDRS) if rng.random() < 0.9 else rng.choice(BIG)
+            r2 = rng.random()
+            a = rng.choice(ADDRS) if r2 < 0.86 else rng.choice(BIG) \
+                if r2 < 0.94 else rng.choice(HUGE)
             return ("biaddr", rng.randrange(N_BI), a)
         if r < 0.6:
-            return ("bisize", rng.randrange(N_BI), rng.randrange(0, 8))
+            return ("bisize", rng.randrange(N_BI), rng.randrange(0, 8)
+                    if rng.random() < 0.96 else rng.choice(HUGE))
         if r < 0.7:
             return ("blk-parent", rng.randrange(N_BLK),
                     rng.choice([None] + list(range(N_BI)) * 2))
@@ -259,7 +284,10 @@ class World:
         """can the IR be saved and loaded back unchanged? (stored bytes within
         size hold by construction; symbolic expressions refer to symbols of
         module 0, which comes first)"""
-        return all(m.ir is self.ir for m in self.mods)
+        lim = 2 ** 64
+        return all(m.ir is self.ir for m in self.mods) and all(
+            (x.address or 0) < lim and x.size < lim for x in self.bis) and \
+            all(b.offset < lim and b.size < lim for b in self.blks)
 
     # ---- scans (specification side), computed from the real objects'
     # plain attributes only
@@ -569,7 +597,9 @@ def run_history(ctx, hno, steps, tie, lookup_every, sym=False):
             return None
         ctx.evaluations += 1
         ctx.count("edit:" + op[0])
-        if ctx.rng.random() < lookup_every:
+        if getattr(w, "rejected", None):
+            ctx.count("edit-rejected:" + w.rejected)
+        if ctx.rng.random() < lookup_every or getattr(w, "rejected", None):
             try:
                 with core.time_limit(60):
                     ok = w.lookups(ctx, ctx.prop, report)
